@@ -53,6 +53,10 @@ func (m *Model) UpdatePublication(id string, publication *traits.Publication, op
 		publication = proto.Clone(publication).(*traits.Publication)
 		publication.Id = id
 	}
+	// For the same reason the Id is always among the written fields: with resource.WithCreateIfAbsent and an update
+	// mask that leaves it out, the publication would be created with an empty Id. For one that exists this writes
+	// the id it has.
+	opts = append(opts, resource.WithMoreUpdatePaths("id"), resource.WithMoreWritablePaths("id"))
 	return toPublication(m.publications.Update(id, publication, opts...))
 }
 
